@@ -469,8 +469,11 @@ def check_document(rec, doc, monitor, what, cap, wit):
     r1, r2, errs = parse_both(doc)
     if errs:
         w = unparseable_witness(doc, errs, wit)
-        key = 'f13' if w['parses_after_both_repairs'] else 'n'
-        if cap[key] < 14:
+        # recognisable mechanisms (illegal character references, '--' in comments) are capped per monitor and mechanism
+        key = ('refs' if w['illegal_char_refs'] else '') + ('comments' if w['comments_with_double_hyphen'] else '') if w['parses_after_both_repairs'] else 'n'
+        key = (key, monitor)
+        cap[key] = cap.get(key, 0)
+        if cap[key] < 8:
             cap[key] += 1
             rec.violation(monitor, 'unparseable', '%s does not parse (%s): %s' % (what, errs[0][0], errs[0][1]), w)
         return None, None
